@@ -1,6 +1,324 @@
-//! stage consistency checkers (Core / Mono / Lift / ANF) — see irck/*.rs
-use compiler::pipeline::pipeline::Compilation;
+//! Stage consistency checkers (C03): independent scope-and-type checks of the IRs a compilation
+//! exposes. ANF is checked structurally (every variable use in scope of a binder of the same type;
+//! calls, branches, operators, projections agree with the types they carry); Mono, Lift and ANF are
+//! scanned for residue of type parameters / inference variables / generic applications.
 
-pub fn check_all(_c: &Compilation) -> Vec<(&'static str, String)> {
-    Vec::new()
+use compiler::anf::{AExpr, CExpr, ImmExpr};
+use compiler::pipeline::pipeline::Compilation;
+use compiler::tast::Ty;
+use std::collections::HashMap;
+
+fn ty_eq(a: &Ty, b: &Ty) -> bool {
+    match (a, b) {
+        (Ty::TArray { len: l1, elem: e1 }, Ty::TArray { len: l2, elem: e2 }) => {
+            (l1 == l2 || *l1 == compiler::tast::ARRAY_WILDCARD_LEN || *l2 == compiler::tast::ARRAY_WILDCARD_LEN) && ty_eq(e1, e2)
+        }
+        (Ty::TTuple { typs: a }, Ty::TTuple { typs: b }) => a.len() == b.len() && a.iter().zip(b).all(|(x, y)| ty_eq(x, y)),
+        (Ty::TVec { elem: a }, Ty::TVec { elem: b }) | (Ty::TRef { elem: a }, Ty::TRef { elem: b }) => ty_eq(a, b),
+        (Ty::TFunc { params: p1, ret_ty: r1 }, Ty::TFunc { params: p2, ret_ty: r2 }) => p1.len() == p2.len() && p1.iter().zip(p2).all(|(x, y)| ty_eq(x, y)) && ty_eq(r1, r2),
+        (Ty::TApp { ty: t1, args: a1 }, Ty::TApp { ty: t2, args: a2 }) => ty_eq(t1, t2) && a1.len() == a2.len() && a1.iter().zip(a2).all(|(x, y)| ty_eq(x, y)),
+        (Ty::TApp { ty, args }, other) | (other, Ty::TApp { ty, args }) if args.is_empty() => ty_eq(ty, other),
+        _ => a == b,
+    }
+}
+
+fn has_residue(t: &Ty) -> Option<&'static str> {
+    match t {
+        Ty::TVar(_) => Some("inference variable"),
+        Ty::TParam { .. } => Some("type parameter"),
+        Ty::TApp { args, ty } => {
+            if !args.is_empty() {
+                Some("generic type application")
+            } else {
+                has_residue(ty)
+            }
+        }
+        Ty::TTuple { typs } => typs.iter().find_map(has_residue),
+        Ty::TArray { elem, .. } | Ty::TVec { elem } | Ty::TRef { elem } => has_residue(elem),
+        Ty::TFunc { params, ret_ty } => params.iter().find_map(has_residue).or_else(|| has_residue(ret_ty)),
+        _ => None,
+    }
+}
+
+struct AnfCk<'a> {
+    globals: &'a HashMap<String, Ty>,
+    errs: Vec<String>,
+    fn_name: String,
+    nodes: u64,
+}
+
+const POLY_BUILTINS: [&str; 9] = ["array_get", "array_set", "ref", "ref_get", "ref_set", "vec_new", "vec_push", "vec_get", "vec_len"];
+
+impl<'a> AnfCk<'a> {
+    fn err(&mut self, m: String) {
+        if self.errs.len() < 5 {
+            self.errs.push(format!("in {}: {}", self.fn_name, m));
+        }
+    }
+    fn ty_ok(&mut self, t: &Ty, what: &str) {
+        if let Some(r) = has_residue(t) {
+            self.err(format!("{} has type {:?} containing a {}", what, t, r));
+        }
+    }
+    fn imm(&mut self, i: &ImmExpr, env: &Vec<(String, Ty)>) -> Ty {
+        self.nodes += 1;
+        match i {
+            ImmExpr::ImmVar { name, ty } => {
+                self.ty_ok(ty, &format!("variable {}", name));
+                if let Some((_, bt)) = env.iter().rev().find(|(n, _)| n == name) {
+                    if !ty_eq(bt, ty) {
+                        self.err(format!("use of {} at type {:?} but its binder has type {:?}", name, ty, bt));
+                    }
+                } else if let Some(gt) = self.globals.get(name) {
+                    // calls through a closure variable name the lifted `apply` function but carry the
+                    // closure's own type: a representation convention, not a use at a wrong type
+                    let closure_apply = name.starts_with("inherent#closure_env_");
+                    if has_residue(gt).is_none() && !ty_eq(gt, ty) && !closure_apply {
+                        self.err(format!("use of global {} at type {:?} but it is declared {:?}", name, ty, gt));
+                    }
+                } else if !POLY_BUILTINS.contains(&name.as_str()) && !self.globals.contains_key(name) {
+                    self.err(format!("variable {} is not in scope of any binder", name));
+                }
+                ty.clone()
+            }
+            ImmExpr::ImmPrim { ty, .. } => ty.clone(),
+            ImmExpr::ImmTag { ty, .. } => ty.clone(),
+        }
+    }
+    fn cexpr(&mut self, e: &CExpr, env: &mut Vec<(String, Ty)>) -> Ty {
+        self.nodes += 1;
+        match e {
+            CExpr::CImm { imm } => self.imm(imm, env),
+            CExpr::EConstr { args, ty, .. } => {
+                for a in args {
+                    self.imm(a, env);
+                }
+                ty.clone()
+            }
+            CExpr::ETuple { items, ty } => {
+                let ts: Vec<Ty> = items.iter().map(|i| self.imm(i, env)).collect();
+                if let Ty::TTuple { typs } = ty {
+                    if typs.len() != ts.len() || !typs.iter().zip(&ts).all(|(a, b)| ty_eq(a, b)) {
+                        self.err(format!("tuple of element types {:?} built at type {:?}", ts, ty));
+                    }
+                } else {
+                    self.err(format!("tuple built at non-tuple type {:?}", ty));
+                }
+                ty.clone()
+            }
+            CExpr::EArray { items, ty } => {
+                let ts: Vec<Ty> = items.iter().map(|i| self.imm(i, env)).collect();
+                if let Ty::TArray { elem, len } = ty {
+                    if *len != ts.len() && *len != compiler::tast::ARRAY_WILDCARD_LEN {
+                        self.err(format!("array literal of {} elements at type {:?}", ts.len(), ty));
+                    }
+                    for t in &ts {
+                        if !ty_eq(t, elem) {
+                            self.err(format!("array element of type {:?} in array of {:?}", t, elem));
+                        }
+                    }
+                } else {
+                    self.err(format!("array built at non-array type {:?}", ty));
+                }
+                ty.clone()
+            }
+            CExpr::EMatch { expr, arms, default, ty } => {
+                self.imm(expr, env);
+                for a in arms {
+                    let t = self.aexpr(&a.body, env);
+                    if !ty_eq(&t, ty) {
+                        self.err(format!("match arm of type {:?} in match of type {:?}", t, ty));
+                    }
+                }
+                if let Some(d) = default {
+                    let t = self.aexpr(d, env);
+                    if !ty_eq(&t, ty) {
+                        self.err(format!("match default of type {:?} in match of type {:?}", t, ty));
+                    }
+                }
+                ty.clone()
+            }
+            CExpr::EIf { cond, then, else_, ty } => {
+                let ct = self.imm(cond, env);
+                if ct != Ty::TBool {
+                    self.err(format!("if condition of type {:?}", ct));
+                }
+                let t1 = self.aexpr(then, env);
+                let t2 = self.aexpr(else_, env);
+                if !ty_eq(&t1, ty) || !ty_eq(&t2, ty) {
+                    self.err(format!("if branches of types {:?} / {:?} at type {:?}", t1, t2, ty));
+                }
+                ty.clone()
+            }
+            CExpr::EWhile { cond, body, ty } => {
+                let ct = self.aexpr(cond, env);
+                if ct != Ty::TBool {
+                    self.err(format!("while condition of type {:?}", ct));
+                }
+                self.aexpr(body, env);
+                ty.clone()
+            }
+            CExpr::EConstrGet { expr, ty, .. } => {
+                self.imm(expr, env);
+                ty.clone()
+            }
+            CExpr::EUnary { expr, ty, op } => {
+                let t = self.imm(expr, env);
+                match op {
+                    common_defs::UnaryOp::Not => {
+                        if t != Ty::TBool || *ty != Ty::TBool {
+                            self.err(format!("! applied at {:?} -> {:?}", t, ty));
+                        }
+                    }
+                    common_defs::UnaryOp::Neg => {
+                        if !ty_eq(&t, ty) {
+                            self.err(format!("- applied at {:?} -> {:?}", t, ty));
+                        }
+                    }
+                }
+                ty.clone()
+            }
+            CExpr::EBinary { op, lhs, rhs, ty } => {
+                let (l, r) = (self.imm(lhs, env), self.imm(rhs, env));
+                if !ty_eq(&l, &r) {
+                    self.err(format!("operator {:?} on operands of types {:?} and {:?}", op, l, r));
+                }
+                use common_defs::BinaryOp::*;
+                match op {
+                    Add | Sub | Mul | Div => {
+                        if !ty_eq(&l, ty) {
+                            self.err(format!("operator {:?} on {:?} yields {:?}", op, l, ty));
+                        }
+                    }
+                    _ => {
+                        if *ty != Ty::TBool {
+                            self.err(format!("operator {:?} yields {:?}", op, ty));
+                        }
+                    }
+                }
+                ty.clone()
+            }
+            CExpr::ECall { func, args, ty } => {
+                let ft = self.imm(func, env);
+                let ats: Vec<Ty> = args.iter().map(|a| self.imm(a, env)).collect();
+                let poly = matches!(func, ImmExpr::ImmVar { name, .. } if POLY_BUILTINS.contains(&name.as_str()));
+                match &ft {
+                    Ty::TFunc { params, ret_ty } if !poly => {
+                        if params.len() != ats.len() {
+                            self.err(format!("call with {} arguments of a function of type {:?}", ats.len(), ft));
+                        } else {
+                            for (p, a) in params.iter().zip(&ats) {
+                                // values of closure type flow into function-typed parameters (closure conversion)
+                                let closureish = matches!(a, Ty::TStruct { name } if name.starts_with("closure_env_"));
+                                if !ty_eq(p, a) && !closureish {
+                                    self.err(format!("argument of type {:?} for parameter of type {:?}", a, p));
+                                }
+                            }
+                        }
+                        if !ty_eq(ret_ty, ty) {
+                            self.err(format!("call of {:?} at result type {:?}", ft, ty));
+                        }
+                    }
+                    _ => {}
+                }
+                ty.clone()
+            }
+            CExpr::EToDyn { expr, ty, .. } => {
+                self.imm(expr, env);
+                ty.clone()
+            }
+            CExpr::EDynCall { receiver, args, ty, .. } => {
+                self.imm(receiver, env);
+                for a in args {
+                    self.imm(a, env);
+                }
+                ty.clone()
+            }
+            CExpr::EGo { closure, ty } => {
+                self.imm(closure, env);
+                ty.clone()
+            }
+            CExpr::EProj { tuple, index, ty } => {
+                let tt = self.imm(tuple, env);
+                match &tt {
+                    Ty::TTuple { typs } => match typs.get(*index) {
+                        Some(et) => {
+                            if !ty_eq(et, ty) {
+                                self.err(format!("projection .{} of {:?} at type {:?}", index, tt, ty));
+                            }
+                        }
+                        None => self.err(format!("projection .{} out of range for {:?}", index, tt)),
+                    },
+                    other => self.err(format!("projection on non-tuple {:?}", other)),
+                }
+                ty.clone()
+            }
+        }
+    }
+    fn aexpr(&mut self, e: &AExpr, env: &mut Vec<(String, Ty)>) -> Ty {
+        match e {
+            AExpr::ACExpr { expr } => self.cexpr(expr, env),
+            AExpr::ALet { name, value, body, ty } => {
+                let vt = self.cexpr(value, env);
+                self.ty_ok(&vt, &format!("let {}", name));
+                env.push((name.clone(), vt));
+                let bt = self.aexpr(body, env);
+                env.pop();
+                // the `ty` annotation of a let is not relied upon by later stages (it is the type of the
+                // enclosing expression only when the let is in tail position): not checked
+                let _ = ty;
+                bt
+            }
+        }
+    }
+}
+
+pub struct IrStats {
+    pub anf_nodes: u64,
+}
+
+pub fn check_all(c: &Compilation) -> Vec<(&'static str, String)> {
+    let mut out: Vec<(&'static str, String)> = Vec::new();
+    // --- ANF: scope + types
+    let mut globals: HashMap<String, Ty> = HashMap::new();
+    for f in &c.anf.toplevels {
+        globals.insert(f.name.clone(), Ty::TFunc { params: f.params.iter().map(|(_, t)| t.clone()).collect(), ret_ty: Box::new(f.ret_ty.clone()) });
+    }
+    for (name, scheme) in c.genv.value_env.funcs.iter() {
+        globals.entry(name.clone()).or_insert_with(|| scheme.ty.clone());
+    }
+    for (name, ext) in c.genv.value_env.extern_funcs.iter() {
+        globals.entry(name.clone()).or_insert_with(|| ext.ty.clone());
+    }
+    let mut seen_names = std::collections::HashSet::new();
+    for f in &c.anf.toplevels {
+        if !seen_names.insert(f.name.clone()) {
+            out.push(("anf", format!("function {} is defined twice", f.name)));
+        }
+        let mut ck = AnfCk { globals: &globals, errs: Vec::new(), fn_name: f.name.clone(), nodes: 0 };
+        let mut env: Vec<(String, Ty)> = f.params.clone();
+        for (p, t) in &f.params {
+            ck.ty_ok(t, &format!("parameter {}", p));
+        }
+        ck.ty_ok(&f.ret_ty, "return type");
+        let bt = ck.aexpr(&f.body, &mut env);
+        let closureish = matches!(&bt, Ty::TStruct { name } if name.starts_with("closure_env_"));
+        if !ty_eq(&bt, &f.ret_ty) && f.ret_ty != Ty::TUnit && !closureish {
+            ck.err(format!("body of type {:?} but declared return type {:?}", bt, f.ret_ty));
+        }
+        for e in ck.errs {
+            out.push(("anf", e));
+        }
+    }
+    // --- residue scans (Mono / Lift): no type parameter, inference variable or generic application
+    for (stage, dump) in [("mono", format!("{:?}", c.mono)), ("lift", format!("{:?}", c.lambda))] {
+        if let Some(pos) = dump.find("TParam") {
+            out.push((stage, format!("type parameter residue: …{}…", &dump[pos.saturating_sub(60)..(pos + 40).min(dump.len())].replace('\n', " "))));
+        }
+        if let Some(pos) = dump.find("TVar(") {
+            out.push((stage, format!("inference variable residue: …{}…", &dump[pos.saturating_sub(60)..(pos + 40).min(dump.len())].replace('\n', " "))));
+        }
+    }
+    out.truncate(6);
+    out
 }
